@@ -13,6 +13,15 @@ CHECKS = {
          "cvxpy stub and T=Σ^(-1/2) parametrisation",
     technique="symbolic execution of the real numpy code on z3 reals + SMT (QF_LRA/QF_NRA) per path",
     design_ref="DESIGN.md §3 C09"),
+ "C13": dict(
+    text="Bounded symbolic model checking of the real get_pareto_set / get_pareto_set_naive: every order type of N "
+         "symbolic vectors that the elimination loop distinguishes is a path; on each the concrete returned index list is "
+         "proved (z3) to satisfy the Pareto specification (no returned vector strictly dominated, every input weakly "
+         "dominated by a returned one, duplicates once / all copies kept, indices valid-distinct-increasing).",
+    note=REAL + "N<=4 (quick) / 5 (thorough) vectors, m<=3, cone set as C09; naive routine: vectors either equal or "
+         "separated beyond numpy.allclose's tolerance",
+    technique="symbolic execution of the real numpy code on z3 reals + SMT (QF_LRA) per path",
+    design_ref="DESIGN.md §3 C13"),
 }
 
 _WIP = "check not built yet (work in progress; will be claimed once its harness exists)"
